@@ -262,6 +262,25 @@ Theorem C13_after_join_accepted : forall c mq ms mq' ms',
 Proof. exact final_impl_accepted. Qed.
 Print Assumptions C13_after_join_accepted.
 
+(* None lost under load: T goroutines sending the same failing message N times
+   each is, in every schedule, the history "T*N times that message"; the
+   answer then holds exactly the specified number of errors. *)
+Theorem C13_load_answer_is_the_specification : forall c k m n,
+  spec_outputs c (map (Traffic k) (repeat m n) ++ [Query]) = [load_answer c k m n].
+Proof. exact load_answer_is_spec. Qed.
+Print Assumptions C13_load_answer_is_the_specification.
+
+Theorem C13_load_oracle_is_the_property : forall c k m n cnt,
+  c13_load_ok c k m n cnt = true <-> cnt = length (load_answer c k m n).
+Proof. exact c13_load_ok_iff. Qed.
+Print Assumptions C13_load_oracle_is_the_property.
+
+Theorem C13_load_executions_accepted : forall c k m n,
+  c13_load_ok c k m n
+    (length (hd [] (model_outputs repaired c (map (Traffic k) (repeat m n) ++ [Query])))) = true.
+Proof. exact load_impl_accepted. Qed.
+Print Assumptions C13_load_executions_accepted.
+
 Theorem C13_same_set_oracle_is_the_property : forall want obs,
   c13_same_set_ok want obs = true <->
   (forall f, In f want -> In f obs) /\ (forall f, In f obs -> In f want) /\ NoDup obs.
